@@ -333,9 +333,27 @@ func labC12(e labEnv) {
 		ncfg = 12
 	}
 	tags := map[string]int{}
-	for _, c := range tcpBoundaryCfgs(r, max(8, ncfg))[:ncfg] {
+	// programs generated earlier stay in use while later ones are generated (several runs are alive at once, each holding the
+	// program for its own tuple until it is attached): after each new generation, the slice handed out for the PREVIOUS
+	// configuration is assembled and run again - it must still be that configuration's program
+	var prevProg []bpf.RawInstruction
+	var prevCfg tcpCfg
+	for ci, c := range tcpBoundaryCfgs(r, max(8, ncfg))[:ncfg] {
 		p, err := packets.VerifClassicBPF(c.spec())
 		must(err)
+		if ci > 0 {
+			vmP := mustVM(prevProg)
+			for k, fr := range c12Frames(prevCfg, r, false) {
+				if k%16 != 0 {
+					continue
+				}
+				tags["held_program_after_next_generation"]++
+				in := L(sxInt(1), L(sxInt(int64(prevCfg.srcU32())), sxInt(int64(prevCfg.dstU32())), sxInt(int64(prevCfg.sport)), sxInt(int64(prevCfg.dport))), sxBytes(fr.f))
+				out := L(sxInt(vmRun(vmI, fr.f)), sxInt(vmRun(vmU, fr.f)), sxInt(vmRun(vmS, fr.f)), sxInt(vmRun(vmD, fr.f)), sxInt(vmRun(vmP, fr.f)))
+				w.put(in, out)
+			}
+		}
+		prevProg, prevCfg = p, c
 		vmT := mustVM(p)
 		for _, fr := range c12Frames(c, r, e.thorough()) {
 			tags[fr.tag]++
